@@ -25,6 +25,8 @@ pub struct ApiEngine {
     deliveries: HashMap<String, Delivery>,
     blocked: usize,
     known_ids: std::collections::BTreeSet<u16>,
+    /// `call2`: the channel the argument's handle is made from
+    other: Option<&'static Channel>,
 }
 
 fn s(tok: &str) -> Option<String> {
@@ -344,7 +346,15 @@ impl ApiEngine {
                     Ok(x) => x,
                     Err(e) => return Some(format!("ret err {}", err_token(&e))),
                 };
-                let xo = match mk(s(other)?) {
+                // `call2`: the argument's handle comes from another channel
+                let mk2 = |name: String| -> amiquip::Result<Exchange<'static>> {
+                    match self.other {
+                        Some(o) if name.is_empty() => Ok(Exchange::direct(o)),
+                        Some(o) => o.exchange_declare_nowait(ExchangeType::Direct, name, ExchangeDeclareOptions::default()),
+                        None => mk(name),
+                    }
+                };
+                let xo = match mk2(s(other)?) {
                     Ok(x) => x,
                     Err(e) => return Some(format!("ret err {}", err_token(&e))),
                 };
@@ -472,6 +482,24 @@ impl Engine for ApiEngine {
                     _ => false,
                 };
                 out.push(if ok { "ok".into() } else { "bad-op".into() });
+            }
+            ["call2", ch, ch2, op, args @ ..] => {
+                let (c1, c2) = match (ch.parse::<u16>().ok().and_then(|c| self.chans.get(&c).copied()), ch2.parse::<u16>().ok().and_then(|c| self.chans.get(&c).copied())) {
+                    (Some(a), Some(b)) => (a, b),
+                    _ => return out.push("bad-op".into()),
+                };
+                self.other = Some(c2);
+                let r = catch_unwind(AssertUnwindSafe(|| self.call(c1, op, args)));
+                self.other = None;
+                match r {
+                    Ok(Some(line)) => out.push(line),
+                    Ok(None) => out.push("bad-op".into()),
+                    Err(_) => {
+                        out.push(format!("# panic at {}", crate::take_last_panic().unwrap_or_default()));
+                        out.push("ret PANIC".into());
+                    }
+                }
+                self.flush_sent(out);
             }
             ["call", ch, op, args @ ..] => {
                 let ch: u16 = match ch.parse() {
